@@ -430,7 +430,8 @@ pub fn check_c09(server: &Server, t: &TransferSpec, v: &TransferView, stats: &mu
     for &s in &block_arrivals {
         let a = &log[s];
         let size = szx_size(a.block1.unwrap().2);
-        if a.block1.unwrap().2 > 6 || m < a.req_overhead + 12 + size || m > 1280 {
+        // "budgets that admit the client's block size": no upper bound
+        if a.block1.unwrap().2 > 6 || m < a.req_overhead + 12 + size {
             stats.hit("c09.out-of-premise.budget");
             return false;
         }
